@@ -203,6 +203,11 @@ Clauses(ob) ==
            "C10:collectors-differ-from-classes")
      \o If(ob.cpp.delete_loops = pre.delete_loops, "C10:unload-does-not-free-every-collector")
      \o If(ob.cpp.delete_loops = pre.delete_loops, "C11:unload-does-not-free-every-collector")
+     \* (the clauses above hold the generator to ITS enum rule; where that rule falls short of the property the verified
+     \*  behaviour is the recorded deviation)
+     \o [i \in 1..Len(EnumGaps(ob.inst, <<>>, EnumCpps(ob.inst, <<>>), ob.opts.ignore)) |->
+           "C06:" \o EnumGaps(ob.inst, <<>>, EnumCpps(ob.inst, <<>>), ob.opts.ignore)[i]
+           \o ":enum-not-marshalled-as-enum/EnumOutsideClassBlockMarshalledAsObject"]
      \o If([i \in 1..Len(ob.cpp.rtti) |-> [cpp |-> ob.cpp.rtti[i].cpp, name |-> ob.cpp.rtti[i].name]] = pre.rtti, "C10:rtti-entries-differ-from-virtual-classes")
      \o If([i \in 1..Len(ob.cpp.export_guids) |-> [cpp |-> ob.cpp.export_guids[i].cpp, name |-> ob.cpp.export_guids[i].name]]
            = (IF ob.opts.ser THEN pre.guids ELSE <<>>), "C10:serialization-export-guids")
